@@ -433,7 +433,7 @@ func (g *G) classes() []genClass {
 				return h
 			}
 		}
-		return []genClass{{3, grid}, {4, gridFault}, {3, faults}, {1, sie}, {2, debug(inval)}, {1, debug(status)}}
+		return []genClass{{3, grid}, {4, gridFault}, {3, faults}, {1, sie}, {2, debug(inval)}, {1, debug(status)}, {1, func(g *G, id string) *History { return g.genTruncUnframed(id) }}}
 	case "C03":
 		return []genClass{{8, urls}, {2, inval}, {1, func(g *G, id string) *History { return g.genRootless(id) }}, {1, func(g *G, id string) *History { return g.genHostOverride(id) }}}
 	case "C04":
